@@ -1340,3 +1340,70 @@ Proof.
 Qed.
 
 End Release.
+
+(* ---------- the code before the repairs (variant [original]): computed witnesses ---------- *)
+Definition lcase_of (v : variant) (n : nat) (pk : list pkt) (stop : list bool) (sched : list tid) : lcase :=
+  {| l_var := v; l_n := n; l_maxq := 4; l_gop := true; l_pkts := pk; l_stop := stop; l_sched := sched;
+     l_panic := [] |}.
+Definition lquiet (c : lcase) (s : lstate) : Prop :=
+  quiescent (l_var c) (l_maxq c) rcache (rc_empty (l_gop c)) rc_add rc_snap (l_n c)
+            (fun i => nth i (l_panic c) O) s.
+Definition lstep (c : lcase) (s : lstate) (t : tid) : option lstate :=
+  step (l_var c) (l_maxq c) rcache (rc_empty (l_gop c)) rc_add rc_snap (l_n c)
+       (fun i => nth i (l_panic c) O) s t.
+
+Ltac quiet_n1 :=
+  let t := fresh "t" in let c := fresh "c" in
+  intro t; destruct t as [| |c|c|c]; try (vm_compute; reflexivity);
+  destruct c as [|c]; vm_compute; reflexivity.
+Ltac quiet_n2 :=
+  let t := fresh "t" in let c := fresh "c" in
+  intro t; destruct t as [| |c|c|c]; try (vm_compute; reflexivity);
+  destruct c as [|[|c]]; vm_compute; reflexivity.
+
+(* D3: Close signals without the queue lock while the goroutine is between its closed-test and
+   cond.Wait: everything is quiescent, the consumer waits forever, Consumer.Close never called *)
+Example D3_lost_wakeup_refuted :
+  let cs := lcase_of original 1 [] [] [TAtt 0; TAtt 0; TAtt 0; TClose; TClose; TClose; TCons 0] in
+  let s := lrun cs in
+  lquiet cs s /\ s_kp _ s = KDone /\ s_att _ s 0 = ADone /\
+  c_pc (s_cs _ s 0) = CWait /\ c_closed (s_cs _ s 0) = true /\ c_closes (s_cs _ s 0) = 0.
+Proof. intros cs s. split; [quiet_n1|vm_compute; repeat split]. Qed.
+
+(* D2: attach after the close sweep: registered for ever, never closed, count stays 1 *)
+Example D2_attach_after_close_refuted :
+  let cs := lcase_of original 1 [] [] [TClose; TClose; TClose; TAtt 0; TAtt 0; TAtt 0; TCons 0] in
+  let s := lrun cs in
+  lquiet cs s /\ s_kp _ s = KDone /\ s_att _ s 0 = ADone /\
+  c_reg (s_cs _ s 0) = true /\ c_pc (s_cs _ s 0) = CWait /\ c_closed (s_cs _ s 0) = false /\
+  c_closes (s_cs _ s 0) = 0 /\ s_count _ s = 1%Z.
+Proof. intros cs s. split; [quiet_n1|vm_compute; repeat split]. Qed.
+
+(* D4: Remove (Load … Delete … count--) interleaved with RemoveAndCloseAll (… count = 0) *)
+Example D4_negative_count_refuted :
+  let cs := lcase_of original 1 [] [true]
+              [TAtt 0; TAtt 0; TAtt 0; TStop 0; TClose; TClose; TClose; TStop 0] in
+  (s_count _ (lrun cs) < 0)%Z.
+Proof. vm_compute. reflexivity. Qed.
+
+(* the unrestricted "an attach step leaves every other consumer's record unchanged" is false in the
+   fixed model too: the Unlock of attacher 0 hands the mutex to attacher 1, which takes its snapshot *)
+Example att_touches_only_that_refuted :
+  let pre := lcase_of fixed 2 [{| p_id := 1; p_kind := 3 |}] [] [TPub; TPub; TPub; TAtt 0; TAtt 1] in
+  let s := lrun pre in
+  s_att _ s 1 = A0W /\
+  match lstep pre s (TAtt 0) with
+  | Some s' => c_prefill (s_cs _ s' 1) <> c_prefill (s_cs _ s 1)
+  | None => False
+  end.
+Proof. intros pre s. split; [vm_compute; reflexivity|]. vm_compute. discriminate. Qed.
+
+(* non-vacuity: the fixed model does reach a quiescent closed state with two released consumers
+   (one stopped from outside before the close, one swept by the close while waiting) *)
+Definition nonvac_case : lcase :=
+  lcase_of fixed 2 [{| p_id := 1; p_kind := 2 |}] [false; true]
+    [TPub; TPub; TPub; TAtt 0; TAtt 0; TAtt 0; TAtt 1; TAtt 1; TAtt 1; TCons 0; TCons 0; TCons 0;
+     TStop 1; TStop 1; TCons 1; TCons 1; TCons 1; TCons 1; TClose; TClose; TCons 0].
+
+Example nonvac_quiescent : lquiet nonvac_case (lrun nonvac_case).
+Proof. quiet_n2. Qed.
